@@ -19,6 +19,7 @@ mod node_models;
 mod node_oracles;
 mod node_rig;
 mod plan;
+mod refs;
 mod rng;
 mod settable;
 mod stubs;
@@ -50,6 +51,7 @@ fn main() {
         Some("replay") => cmd_replay(&args, false),
         Some("show") => cmd_replay(&args, true),
         Some("traces") => cmd_traces(&args),
+        Some("genplan") => cmd_genplan(&args),
         _ => {
             eprintln!("usage: rrtk-sim batch|replay|show|traces ...");
             2
@@ -81,7 +83,9 @@ fn cmd_batch(args: &[String]) -> i32 {
     let out_path = arg_val(args, "--out").unwrap_or_else(|| "/dev/stdout".into());
     let replay_dir = arg_val(args, "--replay-dir").unwrap_or_else(|| "/verif/replays/tmp".into());
     let t0 = Instant::now();
-    let res = run_batch(&prop, tier, seed, nruns, workers, spec.gen, worlds::execute, true);
+    let first: u64 = arg_val(args, "--from").and_then(|s| s.parse().ok()).unwrap_or(0);
+    let nruns: u64 = arg_val(args, "--to").and_then(|s| s.parse().ok()).unwrap_or(nruns);
+    let res = run_batch(&prop, tier, seed, first, nruns, workers, spec.gen, worlds::execute, true);
     let wall_batch = t0.elapsed().as_secs_f64();
 
     // minimise and persist each distinct failing signature
@@ -223,5 +227,28 @@ fn cmd_traces(args: &[String]) -> i32 {
             }
         }
     }
+    0
+}
+
+/// Print the plan of one run of a batch (used to turn a run that kills the process into a
+/// replay file).
+fn cmd_genplan(args: &[String]) -> i32 {
+    let prop = arg_val(args, "--prop").unwrap_or_default();
+    let tier = match arg_val(args, "--tier").as_deref() {
+        Some("thorough") => Tier::Thorough,
+        _ => Tier::Quick,
+    };
+    let seed: u64 = arg_val(args, "--seed").and_then(|s| s.parse().ok()).unwrap_or(1);
+    let run: u64 = arg_val(args, "--run").and_then(|s| s.parse().ok()).unwrap_or(0);
+    let Some(spec) = worlds::spec_for(&prop) else {
+        eprintln!("harness error: no batch defined for property {:?}", prop);
+        return 2;
+    };
+    let mut rng = rng::Rng::for_run(seed, &prop, run);
+    let mut plan = (spec.gen)(&prop, tier, &mut rng, seed, run);
+    if let Some(e) = arg_val(args, "--expect") {
+        plan.expect = vec![e];
+    }
+    print!("{}", plan.to_text());
     0
 }
